@@ -176,7 +176,7 @@ Qed.
 
 Lemma wf_chdir s st :
   wf s -> is_dir (k_ino s) (top st) = true ->
-  wf (set_cur s (mkProc (fds s) st (p_umask (k_cur s)))).
+  wf (set_cur s (mkProc (fds s) st (p_umask (k_cur s)) (p_sig (k_cur s)))).
 Proof.
   intros Hw Hd. apply wf_set_cur; auto. split; auto. apply (wf_fds s Hw).
 Qed.
@@ -234,10 +234,16 @@ Proof.
     rewrite app_length. cbn. lia.
 Qed.
 
+Lemma wf_set_sig s g : wf s -> wf (set_sig s g).
+Proof.
+  intros Hw. apply wf_set_cur; auto. destruct (wf_cur s Hw) as (Ha & Hb). split; auto.
+Qed.
+
 Lemma wf_fork s : wf s -> wf (fst (k_fork s)).
 Proof.
   intros (H1 & H2 & H3 & H4). unfold k_fork, wf, all_procs in *. cbn [fst k_ino k_ofd k_cur k_susp].
-  split; auto. split; auto. split; auto. inversion H3; subst. constructor; auto.
+  split; auto. split; auto. split; auto. inversion H3 as [|p l Hp Hl]; subst.
+  constructor; [|constructor; auto]. destruct Hp as (Ha & Hb). split; auto.
 Qed.
 
 Lemma wf_exit s : wf s -> wf (fst (k_exit s)).
@@ -299,6 +305,15 @@ Proof.
     apply (wf_fds s Hw fd e). apply fd_get_In; auto.
   - unfold k_access. destruct (get_ofd s fd) as [[id o]|]; auto.
     destruct (o_rd o), (o_wr o); auto.
+  - unfold k_sigaction. destruct (negb (N.ltb sig nsig)); auto. cbn [fst]. apply wf_set_sig; auto.
+  - unfold k_getsigaction. destruct (negb (N.ltb sig nsig)); auto.
+  - unfold k_raise. destruct (negb (N.ltb sig nsig)); auto.
+    destruct (mem_n sig _).
+    + destruct (get_disp _ sig); auto; cbn [fst]; apply wf_set_sig; auto.
+    + destruct (deliver _ sig); auto. cbn [fst]. apply wf_set_sig; auto.
+  - unfold k_caught. cbn [fst]. apply wf_set_sig; auto.
+  - unfold k_sigmask. destruct (negb (sigs_ok sigs) || N.ltb 2 how); auto.
+    destruct (deliver_pending _ _); auto. cbn [fst]. apply wf_set_sig; auto.
   - apply wf_fork; auto.
   - apply wf_exit; auto.
 Qed.
@@ -423,4 +438,64 @@ Lemma close_closes_l s fd : k_getfd (fst (k_close s fd)) fd = (fst (k_close s fd
 Proof.
   unfold k_close, k_getfd, fds. cbn [fst set_fds set_cur k_cur p_fds]. rewrite fd_get_del_eq.
   reflexivity.
+Qed.
+
+(* ---- signals ------------------------------------------------------------------------------------------ *)
+
+Lemma mem_insert_n x l : mem_n x (insert_n x l) = true.
+Proof.
+  induction l as [|y l IH]; cbn. { rewrite N.eqb_refl. reflexivity. }
+  destruct (N.ltb x y) eqn:E1. { cbn. rewrite N.eqb_refl. reflexivity. }
+  destruct (N.eqb x y) eqn:E2; cbn; rewrite ?E2; cbn; auto.
+Qed.
+
+Lemma mem_remove_n x l : mem_n x (remove_n x l) = false.
+Proof.
+  induction l as [|y l IH]; cbn; auto.
+  destruct (N.eqb x y) eqn:E; cbn; rewrite ?E; auto.
+Qed.
+
+(* a caught signal raised while it is not blocked is recorded at once *)
+Lemma raise_caught_l s sig :
+  (sig < nsig)%N -> mem_n sig (g_mask (p_sig (k_cur s))) = false ->
+  get_disp (g_disp (p_sig (k_cur s))) sig = DCatch ->
+  snd (k_raise s sig) = RUnit /\
+  mem_n sig (g_caught (p_sig (k_cur (fst (k_raise s sig))))) = true /\
+  g_pend (p_sig (k_cur (fst (k_raise s sig)))) = g_pend (p_sig (k_cur s)).
+Proof.
+  intros Hs Hm Hd. unfold k_raise, deliver.
+  assert (E : negb (N.ltb sig nsig) = false) by lia. rewrite E, Hm, Hd. cbn.
+  split; auto. split; auto. apply mem_insert_n.
+Qed.
+
+(* an ignored signal changes nothing *)
+Lemma raise_ignored_l s sig :
+  (sig < nsig)%N -> get_disp (g_disp (p_sig (k_cur s))) sig = DIgnore ->
+  snd (k_raise s sig) = RUnit /\ p_sig (k_cur (fst (k_raise s sig))) = p_sig (k_cur s).
+Proof.
+  intros Hs Hd. unfold k_raise, deliver.
+  assert (E : negb (N.ltb sig nsig) = false) by lia. rewrite E, Hd.
+  destruct (mem_n sig _); cbn; auto.
+Qed.
+
+(* a blocked signal stays pending and is not recorded until it is unblocked *)
+Lemma raise_blocked_l s sig :
+  (sig < nsig)%N -> mem_n sig (g_mask (p_sig (k_cur s))) = true ->
+  get_disp (g_disp (p_sig (k_cur s))) sig = DCatch ->
+  snd (k_raise s sig) = RUnit /\
+  mem_n sig (g_pend (p_sig (k_cur (fst (k_raise s sig))))) = true /\
+  g_caught (p_sig (k_cur (fst (k_raise s sig)))) = g_caught (p_sig (k_cur s)).
+Proof.
+  intros Hs Hm Hd. unfold k_raise.
+  assert (E : negb (N.ltb sig nsig) = false) by lia. rewrite E, Hm, Hd. cbn.
+  split; auto. split; auto. apply mem_insert_n.
+Qed.
+
+(* setting the action to "ignore" discards a pending instance (POSIX) *)
+Lemma ignore_discards_pending_l s sig :
+  (sig < nsig)%N ->
+  mem_n sig (g_pend (p_sig (k_cur (fst (k_sigaction s sig DIgnore))))) = false.
+Proof.
+  intros Hs. unfold k_sigaction.
+  assert (E : negb (N.ltb sig nsig) = false) by lia. rewrite E. cbn. apply mem_remove_n.
 Qed.
